@@ -356,7 +356,7 @@ func (c *ctx) nodeFor(depth int, gt reflect.Type) *spec.Spec {
 	case gt.Kind() == reflect.Map && gt.Elem() == typeAny && gt.Key() == typeString:
 		// map[string]any: a map-based object or a map[string, any]
 		if rapid.Bool().Draw(c.t, "moAsObject") {
-			return c.object(depth, "")
+			return c.object(depth, "-") // map-based only
 		}
 		s := &spec.Spec{Kind: spec.KMap, Keys: &spec.Spec{Kind: spec.KString}, Values: &spec.Spec{Kind: spec.KAny}}
 		s.Min, s.Max = c.intBounds(0, 3)
@@ -386,7 +386,9 @@ func (c *ctx) nodeFor(depth int, gt reflect.Type) *spec.Spec {
 }
 
 func (c *ctx) object(depth int, structName string) *spec.Spec {
-	if structName == "" && c.o.Structs && (!c.o.Objects || rapid.IntRange(0, 2).Draw(c.t, "useStruct") == 0) {
+	if structName == "-" {
+		structName = ""
+	} else if structName == "" && c.o.Structs && (!c.o.Objects || rapid.IntRange(0, 2).Draw(c.t, "useStruct") == 0) {
 		structName = rapid.SampledFrom([]string{"Leaf", "Leaf", "Mid", "Top", "Node", "AltA", "AltB"}).Draw(c.t, "structName")
 		if rapid.IntRange(0, 3).Draw(c.t, "ptrStruct") == 0 {
 			structName = "*" + structName
@@ -448,6 +450,13 @@ func (c *ctx) object(depth int, structName string) *spec.Spec {
 	c.decorate(o)
 	if structName != "" {
 		c.fixStruct(o)
+	}
+	// KNOWN FINDING (C04, shorthand-selfref): an object whose *only* property refers back to the object makes
+	// the single-property shorthand recurse forever on any non-map input. Such objects are excluded here by
+	// construction (counted) and exercised by C04's dedicated case.
+	if len(selfRefs) > 0 && len(o.Props) == 1 {
+		o.Props = append(o.Props, spec.Prop{Name: "v", Type: &spec.Spec{Kind: spec.KInt}})
+		ev.Class("excluded_known:shorthand-selfref", 1)
 	}
 	// a self-referential member must be optional, otherwise the object has no finite value
 	for _, n := range selfRefs {
@@ -657,13 +666,18 @@ func AddDefaults(t *rapid.T, root *spec.Spec, o Opts) {
 					ev.Class("pruned_default_on_recursive_member", 1)
 					continue
 				}
-				// a by-value object member of a struct-mapped object whose sub-object declares defaults: the SDK
-				// merges the two default sources; the statement does not say how, so no own default is declared.
-				if sub, senv, ok := valueObjectMember(p, env); ok && s.Struct != "" && model.SubDefaults(sub, senv, 0) != nil {
-					ev.Class("pruned_own_default_on_member_with_subdefaults", 1)
-					continue
-				}
 				_ = fieldIsValue
+				// single-property shorthand as the declared default of an object-typed property
+				if sub, senv, ok := valueObjectMember(p, env); ok && len(sub.Props) == 1 && !sub.Props[0].Disabled && rapid.IntRange(0, 2).Draw(t, "shorthandDefault") == 0 {
+					switch sub.Props[0].Type.Kind {
+					case spec.KInt, spec.KFloat, spec.KString, spec.KBool, spec.KEnumI, spec.KEnumS:
+						if d, ok := defaultText(t, sub.Props[0].Type, senv); ok {
+							p.Default = &d
+							ev.Class("default_is_shorthand", 1)
+							continue
+						}
+					}
+				}
 				if d, ok := defaultText(t, p.Type, env); ok {
 					p.Default = &d
 				}
@@ -841,8 +855,8 @@ func (c *ctx) oneOf(k string, depth int) *spec.Spec {
 			s.Discriminator = "ki"
 		}
 	}
-	keysS := []string{"a", "b", "first", "2", "10", ""}
-	keysI := []int64{0, 1, 2, -1, 10, 1 << 40}
+	keysS := rapid.Permutation([]string{"a", "b", "first", "2", "10", ""}).Draw(c.t, "keysS")
+	keysI := rapid.Permutation([]int64{0, 1, 2, -1, 10, 1 << 40}).Draw(c.t, "keysI")
 	for i := 0; i < n; i++ {
 		var obj *spec.Spec
 		if useStructs {
